@@ -238,6 +238,18 @@ func UnHex(s string) []byte {
 	return b
 }
 
+// TempDir creates a scratch directory, on tmpfs when available (fsync on the shared disk is slow
+// and noisy under load); the caller removes it.
+func TempDir(prefix string) string {
+	base := ""
+	if st, err := os.Stat("/dev/shm"); err == nil && st.IsDir() {
+		base = "/dev/shm"
+	}
+	d, err := os.MkdirTemp(base, prefix)
+	must(err)
+	return d
+}
+
 // Try runs f and reports whether it panicked.
 func Try(f func()) (panicked bool, val any) {
 	defer func() {
